@@ -29,7 +29,7 @@ def rule_restart_on_fallback(ctx):
     pss = b.calls('engine::PubPoint::process_stored')
     rs = b.calls('engine::ProcessPubPoint::restart')
     ctx.floor('K2', 'process_collected call in PubPoint::process', len(pcs), 1)
-    ctx.floor('K2', 'process_stored calls in PubPoint::process', len(pss), 2)
+    ctx.floor('K2', 'process_stored calls in PubPoint::process', len(pss), 1)
     for pc in pcs:
         for ps in pss:
             if not b.can_reach(pc.bb, ps.bb) or pc.bb == ps.bb:
